@@ -61,6 +61,93 @@ type op struct {
 	parent   *row
 	relName  string
 	findCond *cond
+	// struct destinations: First | Take | Last | Find
+	fin string
+	// reused destination: what the destination holds BEFORE the call. struct: one element, the
+	// record of the row that is read again, with arbitrary rows in its relation fields; slices:
+	// arbitrary earlier records; assoc-find: arbitrary earlier rows of the relation's model
+	reuse bool
+	pre   []staleRec
+}
+
+// staleRec is one record held by a reused destination: the scalar columns of row rw and, per
+// relation field, rows that were "loaded earlier" (they may or may not still belong to rw).
+type staleRec struct {
+	rw   *row
+	rels map[string][]*row
+}
+
+// genStale draws the earlier content of the relation fields of a record of model m: for about two
+// thirds of the relations 1 (single-valued) or 1-2 rows, half of the time rows whose key still
+// matches (live or soft-deleted, whatever their payload: rows that a condition or the soft-delete
+// scope now excludes), else any row of the target table (the link is gone or never existed).
+func genStale(r *core.Rand, ds *dataset, m *model, rw *row) staleRec {
+	s := staleRec{rw: rw, rels: map[string][]*row{}}
+	for _, rl := range m.rels {
+		all := ds.rows[rl.target]
+		if len(all) == 0 || r.Chance(1, 3) {
+			continue
+		}
+		pool := all
+		if linked := ds.linked(rl, rw); len(linked) > 0 && r.Bool() {
+			pool = linked
+		}
+		n := 1
+		if !rl.single {
+			n = r.Range(1, 2)
+		}
+		for i := 0; i < n; i++ {
+			s.rels[rl.name] = append(s.rels[rl.name], core.Pick(r, pool))
+		}
+	}
+	return s
+}
+
+func (s staleRec) String() string {
+	var names []string
+	for n := range s.rels {
+		names = append(names, n)
+	}
+	sort.Strings(names)
+	parts := []string{fmt.Sprintf("<row u=%d>", s.rw.u)}
+	for _, n := range names {
+		parts = append(parts, fmt.Sprintf("%s: <rows u=%v>", n, usOfRowsUnsorted(s.rels[n])))
+	}
+	return "{" + strings.Join(parts, ", ") + "}"
+}
+
+func usOfRowsUnsorted(rows []*row) []int64 {
+	out := make([]int64, len(rows))
+	for i, r := range rows {
+		out[i] = r.u
+	}
+	return out
+}
+
+// build makes the Go value of a stale record (pointer to the struct).
+func (s staleRec) build(m *model) reflect.Value {
+	p := fill(m, s.rw)
+	for name, rows := range s.rels {
+		f := p.Elem().FieldByName(name)
+		tm := m.rel(name).target
+		switch f.Kind() {
+		case reflect.Slice:
+			sl := reflect.MakeSlice(f.Type(), 0, len(rows)+2)
+			for _, rw := range rows {
+				if f.Type().Elem().Kind() == reflect.Ptr {
+					sl = reflect.Append(sl, fill(tm, rw))
+				} else {
+					sl = reflect.Append(sl, fill(tm, rw).Elem())
+				}
+			}
+			f.Set(sl)
+		case reflect.Ptr:
+			f.Set(fill(tm, rows[0]))
+		case reflect.Struct:
+			f.Set(fill(tm, rows[0]).Elem())
+		}
+	}
+	return p
 }
 
 func (c *cond) String() string {
@@ -197,6 +284,12 @@ func genOp(r *core.Rand, ds *dataset) *op {
 			if r.Chance(1, 3) {
 				o.findCond = genCond(r, "args", "map")
 			}
+			if tgt := ds.rows[o.root.rel(o.relName).target]; len(tgt) > 0 && r.Chance(1, 4) {
+				o.reuse = true
+				for i, n := 0, r.Range(1, 3); i < n; i++ {
+					o.pre = append(o.pre, staleRec{rw: core.Pick(r, tgt)})
+				}
+			}
 			return o
 		}
 	}
@@ -206,7 +299,13 @@ func genOp(r *core.Rand, ds *dataset) *op {
 		if len(live) == 0 {
 			o.dest = "slice"
 		} else {
-			o.filter = []int64{core.Pick(r, live).u}
+			rw := core.Pick(r, live)
+			o.filter = []int64{rw.u}
+			o.fin = core.Pick(r, []string{"First", "First", "First", "Take", "Last", "Find"})
+			if r.Chance(2, 5) {
+				o.reuse = true
+				o.pre = []staleRec{genStale(r, ds, o.root, rw)}
+			}
 		}
 	} else if r.Chance(1, 3) {
 		for _, rw := range ds.rows[o.root] {
@@ -216,6 +315,12 @@ func genOp(r *core.Rand, ds *dataset) *op {
 		}
 		if o.filter == nil {
 			o.filter = []int64{}
+		}
+	}
+	if o.dest != "struct" && len(ds.rows[o.root]) > 0 && r.Chance(1, 6) {
+		o.reuse = true
+		for i, n := 0, r.Range(1, 3); i < n; i++ {
+			o.pre = append(o.pre, genStale(r, ds, o.root, core.Pick(r, ds.rows[o.root])))
 		}
 	}
 	preloadForms := []string{"args", "args", "map", "scope", "scope-order"}
@@ -319,6 +424,20 @@ func (o *op) tree() *loadNode {
 
 func (o *op) desc() string {
 	var sb strings.Builder
+	if o.reuse {
+		var el []string
+		for _, s := range o.pre {
+			el = append(el, s.String())
+		}
+		switch {
+		case o.kind == "assoc-find":
+			fmt.Fprintf(&sb, "%s := <%s of %s>{%s}; ", o.dest, o.dest, o.root.rel(o.relName).target.name, strings.Join(el, ", "))
+		case o.dest == "struct":
+			fmt.Fprintf(&sb, "dest := %s%s; ", o.root.name, el[0])
+		default:
+			fmt.Fprintf(&sb, "dest := <%s of %s>{%s}; ", o.dest, o.root.name, strings.Join(el, ", "))
+		}
+	}
 	if o.kind == "assoc-find" {
 		fmt.Fprintf(&sb, "db.Model(&%s{u=%d}).Association(%q).Find(&%s", o.root.name, o.parent.u, o.relName, o.dest)
 		if o.findCond != nil {
@@ -359,10 +478,14 @@ func (o *op) desc() string {
 	if o.filter != nil {
 		fmt.Fprintf(&sb, ".Where(%s.u IN %v)", o.root.table, o.filter)
 	}
-	switch o.dest {
-	case "struct":
-		fmt.Fprintf(&sb, ".First(&%s{})", o.root.name)
-	case "slice":
+	switch {
+	case o.reuse && o.dest == "struct":
+		fmt.Fprintf(&sb, ".%s(&dest)", o.fin)
+	case o.reuse:
+		sb.WriteString(".Find(&dest)")
+	case o.dest == "struct":
+		fmt.Fprintf(&sb, ".%s(&%s{})", o.fin, o.root.name)
+	case o.dest == "slice":
 		fmt.Fprintf(&sb, ".Find(&[]%s{})", o.root.name)
 	default:
 		fmt.Fprintf(&sb, ".Find(&[]*%s{})", o.root.name)
@@ -373,8 +496,9 @@ func (o *op) desc() string {
 // ---- comparison ---------------------------------------------------------------------
 
 type problem struct {
-	rl  *rel
-	msg string
+	rl    *rel
+	msg   string
+	nokey bool // the owner's key tuple of rl is entirely NULL / zero ("no key" for gorm)
 }
 
 type checker struct {
@@ -492,7 +616,10 @@ func sameInts(a, b []int64) bool {
 
 // record compares one loaded record of model m with the inserted row and, recursively, its
 // relation fields with the reference join.
-func (k *checker) record(m *model, got reflect.Value, want *row, t *loadNode, where string, via *rel) {
+//
+// reused: got is a destination that held earlier content before the call; relation fields that
+// were not requested keep whatever they held (not fixed by the statement: not compared).
+func (k *checker) record(m *model, got reflect.Value, want *row, t *loadNode, where string, via *rel, reused bool) {
 	k.scalars(m, got, want, where, via)
 	for _, rl := range m.rels {
 		f := got.FieldByName(rl.name)
@@ -503,7 +630,7 @@ func (k *checker) record(m *model, got reflect.Value, want *row, t *loadNode, wh
 			sub = t.kids[rl.name]
 		}
 		if sub == nil {
-			if len(kids) > 0 {
+			if len(kids) > 0 && !reused {
 				k.add(rl, "%s: not requested, but rows u=%v are attached", w, usOfVals(kids))
 			}
 			continue
@@ -513,12 +640,15 @@ func (k *checker) record(m *model, got reflect.Value, want *row, t *loadNode, wh
 		gu, wu := usOfVals(kids), usOfRows(exp)
 		if !sameInts(gu, wu) {
 			k.add(rl, "%s (%s, owner key %s): attached rows u=%v, reference join gives u=%v", w, rl.kind, want.tuple(rl.ownerCols), gu, wu)
+			if n := len(k.problems); n > 0 && k.problems[n-1].rl == rl {
+				k.problems[n-1].nokey = allZero(want.tuple(rl.ownerCols))
+			}
 			continue
 		}
 		k.attached += len(kids)
 		sort.Slice(kids, func(i, j int) bool { return uOf(kids[i]) < uOf(kids[j]) })
 		for _, kid := range kids {
-			k.record(rl.target, kid, k.ds.byU(rl.target, uOf(kid)), sub, fmt.Sprintf("%s[u=%d]", w, uOf(kid)), rl)
+			k.record(rl.target, kid, k.ds.byU(rl.target, uOf(kid)), sub, fmt.Sprintf("%s[u=%d]", w, uOf(kid)), rl, false)
 		}
 	}
 }
@@ -598,6 +728,19 @@ func relsOfTree(m *model, t *loadNode, out *[]*rel) {
 	}
 }
 
+// preFill puts earlier records into a destination slice ([]T or []*T).
+func preFill(sl reflect.Value, m *model, pre []staleRec) {
+	s := reflect.MakeSlice(sl.Type(), 0, len(pre))
+	for _, sr := range pre {
+		if sl.Type().Elem().Kind() == reflect.Ptr {
+			s = reflect.Append(s, sr.build(m))
+		} else {
+			s = reflect.Append(s, sr.build(m).Elem())
+		}
+	}
+	sl.Set(s)
+}
+
 func execOp(ds *dataset, o *op) *checker {
 	k := &checker{ds: ds, relKinds: map[string]int{}}
 	root := H.DB.Session(&gorm.Session{})
@@ -610,6 +753,9 @@ func execOp(ds *dataset, o *op) *checker {
 			out = reflect.New(reflect.SliceOf(reflect.PtrTo(elem)))
 		} else {
 			out = reflect.New(reflect.SliceOf(elem))
+		}
+		if o.reuse {
+			preFill(out.Elem(), rl.target, o.pre)
 		}
 		err := root.Model(parent.Interface()).Association(o.relName).Find(out.Interface(), o.findCond.args()...)
 		if err != nil {
@@ -627,7 +773,7 @@ func execOp(ds *dataset, o *op) *checker {
 		}
 		k.attached = len(kids)
 		for _, kid := range kids {
-			k.record(rl.target, kid, ds.byU(rl.target, uOf(kid)), nil, fmt.Sprintf("result[u=%d]", uOf(kid)), rl)
+			k.record(rl.target, kid, ds.byU(rl.target, uOf(kid)), nil, fmt.Sprintf("result[u=%d]", uOf(kid)), rl, false)
 		}
 		return k
 	}
@@ -664,10 +810,24 @@ func execOp(ds *dataset, o *op) *checker {
 	switch o.dest {
 	case "struct":
 		p := reflect.New(o.root.typ)
-		err = db.First(p.Interface()).Error
-		if errors.Is(err, gorm.ErrRecordNotFound) {
+		if o.reuse {
+			p = o.pre[0].build(o.root)
+		}
+		var res *gorm.DB
+		switch o.fin {
+		case "Take":
+			res = db.Take(p.Interface())
+		case "Last":
+			res = db.Last(p.Interface())
+		case "Find":
+			res = db.Find(p.Interface())
+		default:
+			res = db.First(p.Interface())
+		}
+		err = res.Error
+		if errors.Is(err, gorm.ErrRecordNotFound) || (err == nil && o.fin == "Find" && res.RowsAffected == 0) {
 			if len(want) > 0 {
-				k.add(nil, "First: ErrRecordNotFound although parent u=%d is live and selected", want[0].u)
+				k.add(nil, "%s: no record found although parent u=%d is live and selected", o.fin, want[0].u)
 			}
 			return k
 		}
@@ -676,12 +836,18 @@ func execOp(ds *dataset, o *op) *checker {
 		}
 	case "slice":
 		p := reflect.New(reflect.SliceOf(o.root.typ))
+		if o.reuse {
+			preFill(p.Elem(), o.root, o.pre)
+		}
 		err = db.Find(p.Interface()).Error
 		for i := 0; err == nil && i < p.Elem().Len(); i++ {
 			records = append(records, p.Elem().Index(i))
 		}
 	default:
 		p := reflect.New(reflect.SliceOf(reflect.PtrTo(o.root.typ)))
+		if o.reuse {
+			preFill(p.Elem(), o.root, o.pre)
+		}
 		err = db.Find(p.Interface()).Error
 		for i := 0; err == nil && i < p.Elem().Len(); i++ {
 			e := p.Elem().Index(i)
@@ -704,7 +870,7 @@ func execOp(ds *dataset, o *op) *checker {
 	k.parents = len(records)
 	for _, rec := range records {
 		u := uOf(rec)
-		k.record(o.root, rec, ds.byU(o.root, u), tree, fmt.Sprintf("%s[u=%d]", o.root.name, u), nil)
+		k.record(o.root, rec, ds.byU(o.root, u), tree, fmt.Sprintf("%s[u=%d]", o.root.name, u), nil, o.reuse && o.dest == "struct")
 	}
 	return k
 }
@@ -762,6 +928,23 @@ func signature(ds *dataset, o *op, k *checker) string {
 		return "mixed-key-hazards"
 	}
 	return "mismatch:" + o.kind
+}
+
+// staleSignature names a failure that occurs only because the destination held earlier content:
+// operation kind, kind of the first deviating relation and, when that parent's key tuple for the
+// relation is entirely NULL / zero (gorm then has no key to look up), the suffix no-owner-key.
+func staleSignature(o *op, k *checker) string {
+	sig := "stale-on-reused-destination:" + o.kind + ":" + o.dest
+	for _, p := range k.problems {
+		if p.rl != nil {
+			sig += ":" + string(p.rl.kind)
+			if p.nokey {
+				sig += ":no-owner-key"
+			}
+			break
+		}
+	}
+	return sig
 }
 
 // safeExec turns a panic escaping gorm into a problem (so that it gets a signature of its own).
@@ -825,6 +1008,12 @@ func run(c *core.Ctx) {
 		if o.dup {
 			c.Inc("ops_with_duplicate_parents")
 		}
+		if o.reuse {
+			c.Inc("ops_into_reused_" + o.dest)
+		}
+		if o.fin != "" {
+			c.Inc("struct_finisher_" + o.fin)
+		}
 		c.Add("parents_checked", k.parents)
 		c.Add("children_attached", k.attached)
 		for kind, n := range k.relKinds {
@@ -836,11 +1025,21 @@ func run(c *core.Ctx) {
 				msgs = append(msgs, p.msg)
 			}
 			sig := signature(ds, o, k)
-			c.Inc("sig_" + sig)
-			c.Violation(sig, map[string]interface{}{
+			detail := map[string]interface{}{
 				"world": w.name, "profile": profileNames[p], "operation": desc, "problems": msgs, "tables": ds.dump(),
-				"note": "rows inserted with raw SQL; u is a unique row id, a/b (ta/tb) are the key parts, boss_*/own_*/node_* the foreign keys",
-			})
+				"note": "rows inserted with raw SQL; u is a unique row id, a/b (ta/tb) are the key parts, boss_*/own_*/node_* the foreign keys, n a nullable payload",
+			}
+			if o.reuse {
+				// attribute to the reuse only counterfactually: the same call into a fresh destination
+				fresh := *o
+				fresh.reuse, fresh.pre = false, nil
+				if kf := safeExec(ds, &fresh); len(kf.problems) == 0 {
+					sig = staleSignature(o, k)
+					detail["counterfactual"] = "the same call into a fresh zero-valued destination agrees with the reference join: " + fresh.desc()
+				}
+			}
+			c.Inc("sig_" + sig)
+			c.Violation(sig, detail)
 			continue
 		}
 		if k.attached > 0 {
@@ -860,7 +1059,7 @@ func run(c *core.Ctx) {
 			if b > 3 {
 				b = 3
 			}
-			c.Shape(w.name, profileNames[p], o.kind, o.root.name, o.relName, o.dest, o.dup, o.all, o.allCond != nil, o.findCond != nil, strings.Join(paths, "|"), b)
+			c.Shape(w.name, profileNames[p], o.kind, o.root.name, o.relName, o.dest, o.fin, o.reuse, o.dup, o.all, o.allCond != nil, o.findCond != nil, strings.Join(paths, "|"), b)
 			c.Inc("nontrivial_ops")
 			if c.WantSample() && i == 3 {
 				c.Sample(map[string]interface{}{"world": w.name, "profile": profileNames[p], "operation": desc, "parents": k.parents, "children_attached": k.attached, "tables": ds.dump()})
